@@ -962,11 +962,7 @@ func (*RegexNode) priority() uint8 { return lowestPriority }
 
 // Regexp returns a regexp.Regexp compiled from n.
 func (n *RegexNode) Regexp() *regexp.Regexp {
-	flags := n.flags.goFlags()
-	if n.flags.shouldQuoteMeta() {
-		return regexp.MustCompile(flags + regexp.QuoteMeta(n.pattern))
-	}
-	return regexp.MustCompile(n.flags.goFlags() + n.pattern)
+	return regexp.MustCompile(n.flags.goExpr(n.pattern))
 }
 
 // Operand returns the RegexNode's operand.
